@@ -14,11 +14,13 @@ import (
 // Plan is one constant assignment of ServiceE2EMC.tla.
 type Plan struct {
 	Name      string `json:"name"`
-	Designed  []int  `json:"designed"` // indices into Designed of the spec
-	UniIdx    []int  `json:"uniIdx"`   // seeded universe numbers, decoded by the spec (UniAt)
-	NB        int    `json:"nb"`       // chain length of the seeded universes
-	MaxLoss   int    `json:"maxLoss"`
-	Order     string `json:"order"` // "fifo" | "any"
+	Designed  []int  `json:"designed"`     // indices into Designed of the spec
+	UniIdx    []int  `json:"uniIdx"`       // seeded universe numbers, decoded by the spec (UniAt)
+	NB        int    `json:"nb"`           // chain length of the seeded universes
+	MaxLoss   int    `json:"maxLoss"`      // lost share messages per receiver
+	LossTotal int    `json:"maxLossTotal"` // lost share messages per behaviour (state-space bound)
+	ProcNet   int    `json:"procNet"`      // packets that may be in flight when a keyper starts on a block (state-space bound)
+	Order     string `json:"order"`        // "fifo" | "any"
 	AllowFork bool   `json:"allowFork"`
 	Fetch     string `json:"fetch"`
 	Sample    int    `json:"sample"` // behaviours replayed (0 = all printed)
@@ -57,8 +59,8 @@ func (p Plan) mcFiles(phase int) (string, map[string][]byte, string) {
 	if emod < 1 {
 		emod = 1
 	}
-	cfg := "CONSTANTS\n" + p.consts() + fmt.Sprintf(" DesignedIdx <- cDesigned\n UniIdx <- cUni\n NB = %d\n MaxLoss = %d\n Order = %q\n AllowKnown = TRUE\n AllowFork = %s\n Emit = TRUE\n EMod = %d\n EPhase = %d\n",
-		p.NB, p.MaxLoss, p.Order, tlaBool(p.AllowFork), emod, phase%emod) +
+	cfg := "CONSTANTS\n" + p.consts() + fmt.Sprintf(" DesignedIdx <- cDesigned\n UniIdx <- cUni\n NB = %d\n MaxLoss = %d\n MaxLossTotal = %d\n ProcNet = %d\n Order = %q\n AllowKnown = TRUE\n AllowFork = %s\n Emit = TRUE\n EMod = %d\n EPhase = %d\n",
+		p.NB, p.MaxLoss, p.LossTotal, p.ProcNet, p.Order, tlaBool(p.AllowFork), emod, phase%emod) +
 		"SPECIFICATION Spec\nINVARIANT KeysOK\nPROPERTY StepOK\nVIEW View\nCHECK_DEADLOCK FALSE\n"
 	return mod, map[string][]byte{mod + ".tla": []byte(body)}, cfg
 }
